@@ -101,6 +101,8 @@ def F(o, params=True, meta=True, dialects=None):
             out[name + ":p"] = render(o, ctx, True)
     try:
         out["str"] = str(o)
+        if " object at 0x" in out["str"]:
+            out["str"] = "<default-repr:%s>" % type(o).__name__
     except RecursionError:
         out["str"] = "<exc:RecursionError>"
     except Exception as e:
